@@ -11,14 +11,25 @@ VARIABLE x
 Spike(i, a, b) == [k \in 1..Buckets |-> IF k - 1 = i THEN a ELSE b]
 StepG(i, a, b) == [k \in 1..Buckets |-> IF k - 1 < i THEN a ELSE b]
 
+(* seeds as initial states, the tuples as their successors (so TLC's workers share the work) *)
 Init ==
-  \/ \E fam \in {"spike", "step"}, i \in 0..LastIdx, a \in Vals, b \in Vals, T \in 0..TMax, s \in {0, 7} :
-       x = [kind |-> "avg", g |-> IF fam = "spike" THEN Spike(i, a, b) ELSE StepG(i, a, b), T |-> T, s |-> s]
-  \/ \E a1 \in 0..RMax, a2 \in 0..RMax, b \in 0..RMax, c1 \in 0..RMax, c2 \in 0..RMax :
-       x = [kind |-> "reward", a1 |-> a1, a2 |-> a2, b |-> b, c1 |-> c1, c2 |-> c2]
-  \/ \E am \in 1..AMax, v \in 0..VMax, u \in 0..(AMax + 1), claim \in BOOLEAN, mv \in {0, 3}, dust \in {0, 2} :
-       x = [kind |-> "unstake", amount |-> am, value |-> v, u |-> u, claim |-> claim, minv |-> mv, vault |-> am + dust]
-Next == UNCHANGED x
+  \/ \E fam \in {"spike", "step"}, i \in 0..LastIdx : x = [kind |-> "seed_avg", fam |-> fam, i |-> i]
+  \/ \E a1 \in 0..RMax, a2 \in 0..RMax : x = [kind |-> "seed_reward", a1 |-> a1, a2 |-> a2]
+  \/ \E am \in 1..AMax : x = [kind |-> "seed_unstake", amount |-> am]
+AvgCase ==
+  /\ x.kind = "seed_avg"
+  /\ \E a \in Vals, b \in Vals, T \in 0..TMax, s \in {0, 7} :
+       x' = [kind |-> "avg", g |-> IF x.fam = "spike" THEN Spike(x.i, a, b) ELSE StepG(x.i, a, b), T |-> T, s |-> s]
+RewardCase ==
+  /\ x.kind = "seed_reward"
+  /\ \E b \in 0..RMax, c1 \in 0..RMax, c2 \in 0..RMax :
+       x' = [kind |-> "reward", a1 |-> x.a1, a2 |-> x.a2, b |-> b, c1 |-> c1, c2 |-> c2]
+UnstakeCase ==
+  /\ x.kind = "seed_unstake"
+  /\ \E v \in 0..VMax, u \in 0..(AMax + 1), claim \in BOOLEAN, mv \in {0, 3}, dust \in {0, 2} :
+       x' = [kind |-> "unstake", amount |-> x.amount, value |-> v, u |-> u, claim |-> claim, minv |-> mv,
+             vault |-> x.amount + dust]
+Next == AvgCase \/ RewardCase \/ UnstakeCase
 
 LAvg ==
   x.kind = "avg" =>
